@@ -249,6 +249,18 @@ func (h *Handler) handleProppatch(w http.ResponseWriter, r *http.Request) error 
 		return err
 	}
 
+	// A set or remove instruction holds exactly one prop element
+	for _, set := range update.Set {
+		if set.Prop.XMLName.Local == "" {
+			return HTTPErrorf(http.StatusBadRequest, "webdav: set element without prop in PROPPATCH request")
+		}
+	}
+	for _, remove := range update.Remove {
+		if remove.Prop.XMLName.Local == "" {
+			return HTTPErrorf(http.StatusBadRequest, "webdav: remove element without prop in PROPPATCH request")
+		}
+	}
+
 	resp, err := h.Backend.PropPatch(r, &update)
 	if err != nil {
 		return err
